@@ -233,7 +233,7 @@ func Start(dir string, wl Workload, seed int64, perturb float64) (*Run, error) {
 	}
 	r.Rec.Install()
 	r.Rec.Emit("Reset", map[string]any{"safe": wl.Safe})
-	idx, err := OpenScorch(dir, wl.KVConfig)
+	idx, err := OpenWorkload(dir, wl)
 	if err != nil {
 		Uninstall()
 		return nil, err
